@@ -644,4 +644,47 @@ theorem prodU_overflow (dims : List Nat) (hb : 2 ^ 64 ≤ prod dims) : prodU dim
     have h2 := prodUFrom_lt dims 1 p (by omega) h
     omega
 
+/-! ### separators = trailing zero coordinates -/
+
+theorem flat_all_zero : ∀ (ds is : List Nat), is.all (· == 0) = true → flat ds is = 0
+  | [], _, _ => by simp [flat]
+  | _ :: _, [], _ => by simp [flat]
+  | d :: ds, i :: is, h => by
+    simp only [List.all_cons, Bool.and_eq_true, beq_iff_eq] at h
+    simp [flat, h.1, flat_all_zero ds is h.2]
+
+theorem unflat_all_zero_iff (ds : List Nat) (m : Nat) (hm : m < prod ds) :
+    (unflat ds m).all (· == 0) = true ↔ m = 0 := by
+  constructor
+  · intro h
+    have := (unflat_inRange ds m hm).2
+    rw [flat_all_zero ds _ h] at this
+    exact this.symm
+  · intro h; subst h; rw [unflat_zero]; simp
+
+theorem sepCount_eq_trailingZeros : ∀ (dims : List Nat) (n : Nat), 0 < n → n < prod dims →
+    sepCount dims n = trailingZeros (unflat dims n)
+  | [], n, h0, h => by simp [prod] at h; omega
+  | d :: ds, n, h0, h => by
+    simp only [prod] at h
+    have hP : 0 < prod ds := by
+      rcases Nat.eq_zero_or_pos (prod ds) with hz | hz
+      · rw [hz] at h; omega
+      · exact hz
+    have hr : n % prod ds < prod ds := Nat.mod_lt _ hP
+    have hn : prod ds * (n / prod ds) + n % prod ds = n := Nat.div_add_mod n (prod ds)
+    have hne : n % (d * prod ds) ≠ 0 := by rw [Nat.mod_eq_of_lt h]; omega
+    rw [sepCount_cons, if_neg hne, Nat.zero_add, unflat, trailingZeros]
+    have hsc : sepCount ds n = sepCount ds (n % prod ds) := by
+      conv_lhs => rw [← hn, Nat.mul_comm]
+      exact sepCount_add_mul ds _ _
+    by_cases hm : n % prod ds = 0
+    · have hall : (unflat ds (n % prod ds)).all (· == 0) = true := (unflat_all_zero_iff ds _ hr).2 hm
+      have hq : n / prod ds ≠ 0 := by
+        intro hq; rw [hq, hm] at hn; omega
+      rw [if_pos hall, if_neg hq, hsc, hm, sepCount_zero, unflat_length]; omega
+    · have hall : ¬ (unflat ds (n % prod ds)).all (· == 0) = true := fun h' => hm ((unflat_all_zero_iff ds _ hr).1 h')
+      rw [if_neg hall, hsc]
+      exact sepCount_eq_trailingZeros ds _ (by omega) hr
+
 end Rlib.Tensor
